@@ -296,6 +296,12 @@ def lookupPrev (s : Sys) (o : OSet) : List Prev :=
 def availableCond (gen : Nat) (ok : Bool) (reason msg : String) : Cond :=
   { type := "Available", status := if ok then "True" else "False", reason := reason, obsGen := gen, msg := msg }
 
+/-- outcome of a pass that ends with a status update: `ok` if the update went through. -/
+def afterStatus (x : Sys × Except ApiErr OSet) (ok : Res) : Sys × Res :=
+  match x with
+  | (s, .ok _) => (s, ok)
+  | (s, .error _) => (s, .err)
+
 /-- first previous revision, in order, that is missing (`some true`) or reports revision 0
 (`some false`). -/
 def firstProblem : List (Option OSet) → Option Bool
@@ -320,9 +326,7 @@ def reconcile (cfg : Cfg) (rm : Remotes) (name : String) (s : Sys) : Sys × Res 
           { mem with conds := setCond mem.conds ⟨"Archived", "False", "ArchivalInProgress", mem.gen, ""⟩ } else mem
         let mem := { mem with conds := removeCond mem.conds "Available" }
         if mem.lifecycle ≠ .archived then (s, .ok)
-        else match s.updateStatus mem with
-          | (s, .ok _) => (s, .ok)
-          | (s, .error _) => (s, .err)
+        else afterStatus (s.updateStatus mem) .ok
       | .done =>
         let s := { s with freed := s.freed ++ [mem.name] }
         match s.setFinalizer mem false with
@@ -332,9 +336,7 @@ def reconcile (cfg : Cfg) (rm : Remotes) (name : String) (s : Sys) : Sys × Res 
             { mem with conds := setCond mem.conds ⟨"Archived", "True", "Archived", mem.gen, ""⟩, controllerOf := [] } else mem
           let mem := { mem with conds := removeCond mem.conds "Available" }
           if mem.lifecycle ≠ .archived then (s, .ok)
-          else match s.updateStatus mem with
-            | (s, .ok _) => (s, .ok)
-            | (s, .error _) => (s, .err)
+          else afterStatus (s.updateStatus mem) .ok
     else
       match s.setFinalizer mem true with
       | (s, .error _) => (s, .err)
@@ -361,9 +363,7 @@ def reconcile (cfg : Cfg) (rm : Remotes) (name : String) (s : Sys) : Sys × Res 
           let mem := if mem.lifecycle = .paused then
               { mem with conds := setCond mem.conds ⟨"Paused", "True", "Paused", mem.gen, ""⟩ }
             else { mem with conds := removeCond mem.conds "Paused" }
-          match s.updateStatus mem with
-          | (s, .ok _) => (s, res)
-          | (s, .error _) => (s, .err)
+          afterStatus (s.updateStatus mem) res
         match revStep with
         | (s, .error .requeue) => finish s mem .requeue
         | (s, .error _) => (s, .err)
@@ -371,9 +371,7 @@ def reconcile (cfg : Cfg) (rm : Remotes) (name : String) (s : Sys) : Sys × Res 
           -- objectSetPhasesReconciler.Reconcile
           let statusFromError (s : Sys) (mem : OSet) (reason : String) : Sys × Res :=
             let mem := { mem with conds := setCond mem.conds (availableCond mem.gen false reason "") }
-            match s.updateStatus mem with
-            | (s, .ok _) => (s, .requeue)
-            | (s, .error _) => (s, .err)
+            afterStatus (s.updateStatus mem) .requeue
           if hasDuplicates mem.phases then statusFromError s mem "PreflightError"
           else
             let prev := lookupPrev s mem
